@@ -21,13 +21,13 @@ EXHAUSTIVE_SUBDOMAINS = ["every raw value x status x sign of the 29 tabulated fi
                          "temp44 sign x 0..1023", "cap17 each of the 24 capability bits alone and random subsets"]
 ASSUMPTIONS = ["field layouts transcribed from ICAO Doc 9871 (Appendix A tables) into pmv/ref/commb.py",
                "float results compared within 1e-9"]
-REQUIRED = ["field_" + n for n in rc.FIELDS] + ["status0", "status1", "sign1", "wind44", "temp44", "cap17", "ovc10", "identity",
+REQUIRED = ["field_" + n for n in rc.FIELDS] + ["cap17_redecode_after_caller_edit", "status0", "status1", "sign1", "wind44", "temp44", "cap17", "ovc10", "identity",
                                                 "noninterference", "alias"]
 
 
 def mk(ctx, mb, df=None):
     rng = ctx.rng
-    f = bits.commb_frame(df or rng.choice((20, 21)), rng.getrandbits(27), mb, rng.getrandbits(24))
+    f = bits.commb_frame(df or rng.choice((20, 21)), rng.fill(27), mb, rng.fill(24))
     hx = "%028X" % f
     return (hx.lower() if rng.random() < 0.1 else hx), f
 
@@ -57,7 +57,7 @@ def m_field(ctx, case):
         for status in ((0, 1) if sb is not None else (1,)):
             for sign in ((0, 1) if gb is not None else (0,)):
                 for rep in range(case["fill"]):
-                    mb = rc.place(rng.getrandbits(56), name, status, sign, raw)
+                    mb = rc.place(rng.fill(56), name, status, sign, raw)
                     hx, f = mk(ctx, mb)
                     exp = rc.expected(name, status, sign, raw)
                     r = call(fn, hx)
@@ -73,7 +73,7 @@ def m_field(ctx, case):
                     ctx.nontrivial(("f", name, hx))
         # non-interference on this raw value: flip a few bits outside the field (MB, header, parity)
         if raw % case["flip_every"] == 0:
-            mb = rc.place(rng.getrandbits(56), name, 1, rng.randrange(2), raw)
+            mb = rc.place(rng.fill(56), name, 1, rng.randrange(2), raw)
             hx, f = mk(ctx, mb)
             base = call(fn, hx)
             outside_mb = [b for b in range(1, 57) if b not in own]
@@ -96,7 +96,7 @@ def m_special(ctx, case):
         fn = fn_of("wind44")
         for v in range(case["lo"], case["hi"]):
             for status in (0, 1):
-                mb = rng.getrandbits(56)
+                mb = rng.fill(56)
                 spd, dr = v, (v * 7 + 3) % 512
                 mb = rc.put(rc.put(rc.put(mb, 5, 5, status), 6, 14, spd), 15, 23, dr)
                 hx, f = mk(ctx, mb)
@@ -112,7 +112,7 @@ def m_special(ctx, case):
         fn = fn_of("temp44")
         for v in range(case["lo"], case["hi"]):
             for sign in (0, 1):
-                mb = rc.put(rc.put(rng.getrandbits(56), 24, 24, sign), 25, 34, v)
+                mb = rc.put(rc.put(rng.fill(56), 24, 24, sign), 25, 34, v)
                 hx, f = mk(ctx, mb)
                 val = v - 1024 if sign else v
                 r = call(fn, hx)
@@ -124,21 +124,30 @@ def m_special(ctx, case):
         ctx.hit("temp44")
     elif kind == "cap17":
         fn = fn_of("cap17")
-        sets = [1 << (23 - b) for b in range(24)] + [0, (1 << 24) - 1] + [rng.getrandbits(24) for _ in range(case["n"])]
+        sets = [1 << (23 - b) for b in range(24)] + [0, (1 << 24) - 1] + [rng.fill(24) for _ in range(case["n"])]
         for s in sets:
-            mb = (s << 32) | rng.getrandbits(32)
+            mb = (s << 32) | rng.fill(32)
             hx, f = mk(ctx, mb)
             exp = ["BDS" + rc.CAP17[b] for b in range(24) if (s >> (23 - b)) & 1]
             r = call(fn, hx)
             ctx.ev()
             if r[0] != "ok" or list(r[1]) != exp:
                 ctx.violation("field-wrong-cap17", frame=hx, expected=exp, observed=r[1:])
+            elif isinstance(r[1], list):
+                # the result belongs to the caller: editing it must not change what the next decode of the same frame returns
+                r[1].clear()
+                r[1].append("BDS99")
+                r2 = call(fn, hx)
+                ctx.ev()
+                ctx.hit("cap17_redecode_after_caller_edit")
+                if r2[0] != "ok" or list(r2[1]) != exp:
+                    ctx.violation("field-wrong-cap17-after-caller-edited-earlier-result", frame=hx, expected=exp, observed=r2[1:])
             ctx.nontrivial(("c17", hx))
         ctx.hit("cap17")
     elif kind == "ovc10":
         fn = fn_of("ovc10")
         for _ in range(case["n"]):
-            mb = rng.getrandbits(56)
+            mb = rng.fill(56)
             hx, f = mk(ctx, mb)
             r = call(fn, hx)
             ctx.ev()
@@ -167,7 +176,7 @@ def m_special(ctx, case):
             warnings.simplefilter("ignore")
             for alias, target in rc.ALIASES.items():
                 for _ in range(50):
-                    mb = rng.getrandbits(56)
+                    mb = rng.fill(56)
                     hx, f = mk(ctx, mb)
                     a, b = call(getattr(commb, alias), hx), call(getattr(commb, target), hx)
                     ctx.ev(2)
